@@ -82,6 +82,23 @@ theorem writeBytes_is_bits (l : List UInt8) : writeBytes l = writeBitArray (byte
 theorem writeBitString_is_bits (src : BitString) (h : src.len ≤ 8 * src.buf.length) :
     writeBitString src = writeBitArray (abs src) := writeBitString_eq src h
 
+/-- `writeBitString_ignores_source_cursor`: `WriteBitString(bs)` receives the source BY VALUE and resets the copy's read
+cursor (`bs.rCursor = 0`) before copying `bs.len` bits: a source of which some bits have already been read (or peeked,
+or whose counter was reset) is appended in full, and the caller's source is not modified (the model is a function of the
+source value; `Append` goes through `WriteBitString`). Removing the reset (audit-3 change B5) appends short / fails. -/
+theorem writeBitString_ignores_source_cursor (src : BitString) (k : Nat) :
+    writeBitString { src with rCursor := k } = writeBitString src ∧
+    BitString.append { src with rCursor := k } = BitString.append src ∧
+    (Op.writeBitString { src with rCursor := k }).spec = (Op.writeBitString src).spec := by
+  have h : ∀ (i n : Nat), writeBitStringLoop { src with rCursor := k } i n = writeBitStringLoop src i n := by
+    intro i n
+    induction n generalizing i with
+    | zero => rfl
+    | succ n ih => simp only [writeBitStringLoop, ih]; rfl
+  refine ⟨?_, ?_, rfl⟩
+  · simp only [writeBitString, h]
+  · simp only [BitString.append, writeBitString, h]
+
 /-- `WriteBigUint(v, n)` for a non-negative `v` of at most `n ≥ 1` bits writes its `n` bits. -/
 theorem writeBigUint_is_bits (v : Int) (n : Nat) (hv : 0 ≤ v) (hn : ¬ (n = 0 ∨ bigBitLen v > n)) :
     writeBigUint v n = writeBitArray (natToBits n v.toNat) := by
